@@ -87,6 +87,10 @@ class DetectVarNames( ast.NodeVisitor ):
         elif isinstance( v, ast.Call ): # int(x)
           for x in v.args:
             self.visit(x)
+          for x in v.keywords:
+            self.visit(x.value)
+        else: # arbitrary index expression such as s.x[ s.i + 1 ]
+          self.visit( v )
 
         num.append(n)
 
@@ -186,10 +190,14 @@ class DetectVarNames( ast.NodeVisitor ):
         elif isinstance( v, ast.Call ): # int(x)
           for x in v.args:
             self.visit(x)
+          for x in v.keywords:
+            self.visit(x.value)
         elif isinstance( v, ast.Slice ): # s.sel, may be constant
           raise TypeError( f"Having slice in the middle such as s.x[1][1:2][1][2] "
                            f"doesn't make sense at line {input_node.lineno} of "
                            f"update block {self.upblk.__name__} in class {self.obj.__class__}." )
+        else: # arbitrary index expression such as s.x[ s.i + 1 ]
+          self.visit( v )
 
         num.append(n)
 
